@@ -95,6 +95,35 @@ func c13_1(c *core.Ctx, p *core.Prog) {
 		cov, cmsg = false, "the scan pairs a field with the column of a different index"
 	}
 	c.Check(cov, "scan|coverage", p.Pos(scan.Pos()), core.FuncName(fn), cmsg, cmsg)
+	// the scan loop is left only through its own bound: no break / return after a first column that needs an update
+	{
+		var header *ssa.BasicBlock
+		var body map[*ssa.BasicBlock]bool
+		for h, bd := range loopsOf(fn) {
+			if bd[scan.Block()] && (body == nil || len(bd) < len(body)) {
+				header, body = h, bd
+			}
+		}
+		early := ""
+		if header != nil {
+			for b := range body {
+				if b == header {
+					continue
+				}
+				for _, s2 := range b.Succs {
+					if !body[s2] {
+						early = p.Pos(b.Instrs[len(b.Instrs)-1].Pos())
+						if early == "?" || early == "" {
+							early = fmt.Sprintf("block %d", b.Index)
+						}
+					}
+				}
+			}
+		}
+		c.Check(header != nil && early == "", "scan|no-early-exit", p.Pos(scan.Pos()), core.FuncName(fn),
+			"the scan loop is left only when every column was inspected",
+			"the dictionary scan can stop before every column was inspected (an exit inside the loop at "+early+"): each rebuild then widens one column only, so a batch in which several dictionaries outgrow their index at once needs more rebuilds than the retry cap allows (the producer panics \"Too many consecutive schema updates\"), and the remaining dictionaries are measured a build late")
+	}
 	// a non-nil record is returned only on the up-to-date arm of a test made after the scan
 	var msgs []string
 	nOK := 0
@@ -825,4 +854,8 @@ func init() {
 	register("C04", &core.Rule{ID: "C04.42", Title: "a new schema key closes the same-type stream producers and takes the next schema id", Mod: core.ModRoot, Floor: 5, Run: c12_5})
 	register("C04", &core.Rule{ID: "C04.7", Title: "index width advances on excess; reset or disable past the last width; every measurement re-evaluated", Mod: core.ModRoot, Floor: 3, Run: c13_5})
 	register("C04", &core.Rule{ID: "C04.8", Title: "records are handed out only after the dictionary scan and an up-to-date check", Mod: core.ModRoot, Floor: 3, Run: c13_1})
+	register("C08", &core.Rule{ID: "C08.12", Title: "the dictionary scan inspects every column before the record is judged (one rebuild handles all overflowing columns; the retry cap is not exceeded)", Mod: core.ModRoot, Floor: 3, Run: c13_1})
+	for _, prop := range []string{"C01", "C02", "C03"} {
+		register(prop, &core.Rule{ID: "RT.26", Title: "the dictionary scan inspects every column before the record is judged (a batch in which many dictionaries grow at once still encodes)", Mod: core.ModRoot, Floor: 3, Run: c13_1})
+	}
 }
